@@ -251,6 +251,39 @@ pub fn run(tier: Tier) -> i32 {
     let a3 = par_for(real.len(), 1, &deadline, |i, acc| record(real[i].clone(), acc, true));
     total.merge(a3);
 
+    // group 3b: sequential sort of larger runs (std's small-slice sorts are insertion sorts, which
+    // hide an unstable algorithm): many duplicates per key in one in-memory run, and across spills
+    let mut bulk: Vec<Case> = Vec::new();
+    for n in [50usize, 300, 3000] {
+        for keys in [3usize, 50] {
+            for unstable in [false, true] {
+                for spill in [true, false] {
+                    let mut cfg = SorterCfg::scaled(1 << 13, 1 << 10, true, 3, unstable);
+                    if !spill {
+                        cfg.min_memory = None;
+                        cfg.initial = None;
+                        cfg.dump_threshold = None;
+                    }
+                    for how in EXTRACTIONS {
+                        bulk.push(Case { inserts: Inserts::Bulk { n, keys, vlen: 8 }, cfg: cfg.clone(), how, pool: 0 });
+                    }
+                }
+            }
+        }
+    }
+    // budgets and initial sizes that are not multiples of the 16-byte bound record
+    for (t, init) in [(70usize, 20usize), (100, 33), (250, 17)] {
+        for realloc in [true, false] {
+            for chunks in [1usize, 3] {
+                for n in [5usize, 40] {
+                    bulk.push(Case { inserts: Inserts::Bulk { n, keys: 3, vlen: 8 }, cfg: SorterCfg::scaled(t, init, realloc, chunks, false), how: Extraction::Stream, pool: 0 });
+                }
+            }
+        }
+    }
+    let a3b = par_for(bulk.len(), 1, &deadline, |i, acc| record(bulk[i].clone(), acc, true));
+    total.merge(a3b);
+
     // group 4: parallel sort (rayon forks above ~2000 elements): pools of 1, 2, 4, 16 threads —
     // this samples rayon's schedules, it does not enumerate them
     let mut par: Vec<Case> = Vec::new();
@@ -278,7 +311,7 @@ pub fn run(tier: Tier) -> i32 {
     total.merge(a4);
 
     rep.acc = total;
-    rep.set("rule", json!("E2: all insert sequences of length <= n over 3 keys ('' incl.) x 4 value sizes (0, 8, 30, 600 bytes = empty / tiny / medium / larger than the whole buffer), values tagged with their insertion index, x the full product of spill-relevant settings made reachable by the hook (budget 64/160/512 B, allow_realloc, initial capacity 32/64, max_nb_chunks 1/2/3/25, stable/unstable) x 3 extraction paths (into_stream_merger_iter, write_into_stream_writer + read-back, into_reader_cursors + external Merger); pass-through settings (every codec level, block sizes, intervals, index levels, CursorVec/TempFileChunk/instrumented creator) x all shorter sequences; a hook-free group at the real 10 MiB minimum with 3 MiB values; parallel sort on 3000/20000 entries in pools of 1/2/4/16 threads (schedule sampling, labelled). Oracle: ordered multimap, merge = concatenation; under Unstable the multiset of pieces per key. distinct_nontrivial = runs in which the sorter created >= 2 chunks (spilled before the final flush)"));
+    rep.set("rule", json!("E2: all insert sequences of length <= n over 3 keys ('' incl.) x 4 value sizes (0, 8, 30, 600 bytes = empty / tiny / medium / larger than the whole buffer), values tagged with their insertion index, x the full product of spill-relevant settings made reachable by the hook (budget 64/160/512 B, allow_realloc, initial capacity 32/64, max_nb_chunks 1/2/3/25, stable/unstable) x 3 extraction paths (into_stream_merger_iter, write_into_stream_writer + read-back, into_reader_cursors + external Merger); pass-through settings (every codec level, block sizes, intervals, index levels, CursorVec/TempFileChunk/instrumented creator) x all shorter sequences; a hook-free group at the real 10 MiB minimum with 3 MiB values; sequential runs of 50/300/3000 entries over 3/50 keys (many duplicates per key in one sorted run; std sorts short slices by insertion, which would hide an unstable algorithm) and budgets that are not multiples of 16; parallel sort on 3000/20000 entries in pools of 1/2/4/16 threads (schedule sampling, labelled). Oracle: ordered multimap, merge = concatenation; under Unstable the multiset of pieces per key. distinct_nontrivial = runs in which the sorter created >= 2 chunks (spilled before the final flush)"));
     rep.set("bound", json!({"max_len": max_len, "symbols": NSYM, "sequences": n_seq, "spill_configurations": cfgs.len(), "passthrough_configurations": pcfgs.len(), "passthrough_max_len": pl}));
     rep.assume("rayon's internal thread interleavings are not enumerable with the installed tools (loom/shuttle cannot intercept rayon's OS threads); pool-size variation is sampling and is not part of the exhaustive claim");
     rep.assume("the hook only rescales MIN_SORTER_MEMORY / INITIAL_SORTER_VEC_SIZE per thread; the real-constant group binds the scaled runs to the shipped thresholds");
